@@ -39,6 +39,10 @@ def one(name):
     try:
         rc, out = sh('git apply %s' % os.path.join(d, 'patch.diff'), cwd=wt)
         if rc != 0:
+            # the context may have moved with a later repair: 3-way merge
+            rc, out = sh('git apply --3way %s' % os.path.join(d, 'patch.diff'),
+                         cwd=wt)
+        if rc != 0 or 'with conflicts' in out:
             return name, pid, 'stale (patch does not apply)'
         env = dict(os.environ, VV_REPO=wt)
         rc, out = sh('%s/check %s quick' % (VERIF, pid), cwd=VERIF, env=env)
